@@ -2,9 +2,11 @@
 # usage: scripts/mutant_matrix.sh — applies every seeded change to /repo in turn, runs the check of
 # its property (plus listed cross-checks), reverts, and prints a table. Leaves /repo clean.
 cd /verif || exit 2
-declare -A EXTRA=( [C15-m2]="C14" [C07-m2]="C11" [C04-m1]="C03" [C15-m1]="C03" )
+declare -A EXTRA=( [C15-m2]="C14" [C07-m2]="C11" [C04-m1]="C03" [C15-m1]="C03" [C01-m3]="C09 C08" [C13-m3]="C11" [C07-m4]="C08" [C14-m3]="C15" )
 for d in seeded/*/; do
   m=$(basename $d); id=${m%%-*}
+  # R-<Cxx>-<commit>: reverse of a repair; X-<Cxx>-…: a sensitivity change of my own
+  case $m in R-*|X-*) id=$(echo $m | cut -d- -f2);; esac
   [ -f $d/patch.diff ] || continue
   for chk in $id ${EXTRA[$m]}; do
     r=$(scripts/try_mutant.sh /verif/$d/patch.diff $chk 2>&1)
